@@ -95,7 +95,6 @@ func (p *printer) Frag(ctx context.Context) iter.Seq[string] {
 					if !yield(string(c)) {
 						return
 					}
-					continue
 				default:
 					panic(fmt.Errorf("unsupported %%%v", c))
 				}
